@@ -367,6 +367,14 @@ def spansTile : Nat → List (Length × Length × Nat) → Bool
   | _, [] => true
   | lo, (s, e, _) :: rest => decide (s.bytes = lo) && decide (s.bytes ≤ e.bytes) && spansTile e.bytes rest
 
+/-- Contiguity alone: each span starts where the previous one ended. -/
+def spansChain : Nat → List (Length × Length × Nat) → Bool
+  | _, [] => true
+  | lo, (s, e, _) :: rest => decide (s.bytes = lo) && spansChain e.bytes rest
+
+/-- No span goes backwards. -/
+def spansMono (spans : List (Length × Length × Nat)) : Bool := spans.all fun x => decide (x.1.bytes ≤ x.2.1.bytes)
+
 def spansEnd : Nat → List (Length × Length × Nat) → Nat
   | lo, [] => lo
   | _, (_, e, _) :: rest => spansEnd e.bytes rest
@@ -375,6 +383,10 @@ def spansEnd : Nat → List (Length × Length × Nat) → Nat
 def traceBound : List (Length × Length) → Nat
   | [] => 0
   | (_, e) :: rest => max e.bytes (traceBound rest)
+
+/-- Where the loop of `ts_subtree_get_changed_ranges` starts: the later of the two roots' start offsets. -/
+def loopStart (old new : Tree) : Nat :=
+  max (iterNew old).startPosition.bytes (iterNew new).startPosition.bytes
 
 /-- `ts_tree_get_changed_ranges`. -/
 def treeChangedRanges (al : AliasTable) (fixed : Bool) (old new : TreeDump) : Changed :=
